@@ -357,6 +357,16 @@ Definition clipped_colour (inside : bool) (p : option (Z * Z)) : rgba :=
 Definition model_clip_colour (m : mgrid) (q : Z) (h : how) (inside : bool) (c : coord) (j k : Z) : option rgba :=
   match model_pixel m q h c j k with None => None | Some p => Some (clipped_colour inside p) end.
 
+(* ---- what the cache backend stores: tile.source.as_buffer() -> img_to_buf(img, image_opts) works on a copy of the
+   image options ("image_opts = image_opts.copy()": the options object of the cache is never modified, so the result
+   does not depend on the tiles encoded before) and keeps the bands of the image (alpha; the tRNS colour of a true
+   colour image).  Format `mixed` decides per image: PNG when img_has_transparency(img), else JPEG. *)
+Inductive encoding := EncPNG | EncJPEG.
+Definition stored_encoding (mixed has_alpha : bool) : encoding :=
+  if mixed then (if has_alpha then EncPNG else EncJPEG) else EncPNG.
+Definition encoding_eqb (a b : encoding) : bool :=
+  match a, b with EncPNG, EncPNG | EncJPEG, EncJPEG => true | _, _ => false end.
+
 (* ---- comparison helpers for the correspondence *)
 Definition Z2_eqb (a b : Z * Z) : bool := (fst a =? fst b) && (snd a =? snd b).
 Definition pat_item_eqb (a b : option coord * (Z * Z)) : bool :=
